@@ -376,6 +376,102 @@ def run_lifetimes(case):
     return [list(e) for e in ev]
 
 
+def first_access_race_probe(max_lines=40):
+    """Independent of the source lines of ThreadedFactory: thread A is preempted before the k-th line it executes inside
+    lemoncheesecake/helpers/threading.py during its FIRST get_object(), thread B then makes its own first and second access,
+    A goes on and makes its second access, the factory is torn down -- for every k until A's first access has no k-th line.
+    Each thread gets one object of its own, the same at both accesses, and every object created is torn down exactly once."""
+    import lemoncheesecake.helpers.threading as HT
+    target = HT.__file__.rstrip("c")
+    hits = []
+    explored = 0
+    for k in range(1, max_lines + 1):
+        created, torn = [], []
+
+        class Obj(object):
+            pass
+
+        class F(HT.ThreadedFactory):
+            def setup_object(self):
+                o = Obj()
+                created.append(o)
+                return o
+
+            def teardown_object(self, obj):
+                torn.append(obj)
+        f = F()
+        a_paused, resume, got, errors = threading.Event(), threading.Event(), {}, {}
+        count = [0]
+        reached = [False]
+
+        def tracer(frame, event, arg):
+            if frame.f_code.co_filename.rstrip("c") != target:
+                return None
+
+            def local(frame, event, arg):
+                if event == "line" and not reached[0]:
+                    count[0] += 1
+                    if count[0] == k:
+                        reached[0] = True
+                        a_paused.set()
+                        resume.wait(10)
+                return local
+            return local
+
+        def thread_a():
+            sys.settrace(tracer)
+            try:
+                x = f.get_object()
+            except BaseException as e:      # noqa: BLE001
+                errors["A"] = "%s: %s" % (type(e).__name__, e)
+                x = None
+            finally:
+                sys.settrace(None)
+                a_paused.set()
+            try:
+                got["A"] = (x, f.get_object())
+            except BaseException as e:      # noqa: BLE001
+                errors["A2"] = "%s: %s" % (type(e).__name__, e)
+
+        def thread_b():
+            try:
+                got["B"] = (f.get_object(), f.get_object())
+            except BaseException as e:      # noqa: BLE001
+                errors["B"] = "%s: %s" % (type(e).__name__, e)
+        ta = threading.Thread(target=thread_a)
+        ta.start()
+        a_paused.wait(10)
+        if not reached[0]:
+            ta.join(10)
+            break                      # A's first access has fewer than k lines: every preemption point has been tried
+        explored += 1
+        tb = threading.Thread(target=thread_b)
+        tb.start()
+        tb.join(10)
+        resume.set()
+        ta.join(10)
+        try:
+            f.teardown_factory()
+        except BaseException as e:      # noqa: BLE001
+            errors["teardown"] = "%s: %s" % (type(e).__name__, e)
+        where = "thread A preempted before line %d of its first access" % k
+        if errors:
+            hits.append(("first-access-race:raises", "%s: %s" % (where, errors)))
+            continue
+        for t in ("A", "B"):
+            if got[t][0] is not got[t][1]:
+                hits.append(("first-access-race:not-reused", "%s: thread %s gets another object at its second access" % (where, t)))
+        if got["A"][0] is got["B"][0]:
+            hits.append(("first-access-race:shared", "%s: both threads get the same object" % where))
+        if len(created) != 2:
+            hits.append(("first-access-race:created", "%s: %d objects created for 2 threads" % (where, len(created))))
+        for o in created:
+            n = sum(1 for x in torn if x is o)
+            if n != 1:
+                hits.append(("first-access-race:torn", "%s: an object was torn down %d times" % (where, n)))
+    return explored, hits
+
+
 def none_object_probe(nthreads, accesses):
     """A factory whose setup_object() returns None (a factory used for its side effects: it opens something and keeps no handle):
     still at most one setup per thread, every access gets that object (None), one teardown per created object.
@@ -1064,6 +1160,18 @@ def check(run):
             fhits = []
         for sig, text in fhits:
             run.violation("oracle:" + sig, text, {"part": "B", "probe": "factory_as_fixture_value_probe", "scope": scope})
+    try:
+        explored, rhits = first_access_race_probe()
+    except Exception as e:      # noqa: BLE001
+        run.tie_broken("first-access race probe could not be run", detail="%s: %s" % (type(e).__name__, str(e)[-600:]))
+        explored, rhits = 0, []
+    run.evaluations += explored
+    run.count("first_access_preemption_points", explored)
+    seen_sigs = set()
+    for sig, text in rhits:
+        if sig not in seen_sigs:
+            seen_sigs.add(sig)
+            run.violation("oracle:" + sig, text, {"part": "C", "probe": "first_access_race_probe"})
     for nthreads, accesses in ((1, 3), (3, 2), (4, 4)):
         run.evaluations += 1
         run.count("none_object_probes")
@@ -1204,6 +1312,16 @@ def check(run):
 def replay(path):
     r = json.load(open(path))
     rp = r.get("replay") or {}
+    if rp.get("probe") == "first_access_race_probe":
+        explored, hits = first_access_race_probe()
+        print(json.dumps({"preemption_points": explored, "oracle": hits}, indent=1))
+        return 1 if hits else 0
+    if rp.get("probe") in ("none_object_probe", "nested_per_thread_probe", "factory_as_fixture_value_probe"):
+        hits = {"none_object_probe": lambda: none_object_probe(rp.get("threads", 3), rp.get("accesses", 2)),
+                "nested_per_thread_probe": lambda: nested_per_thread_probe(rp.get("scope", "session")),
+                "factory_as_fixture_value_probe": lambda: factory_as_fixture_value_probe(rp.get("scope", "session"))}[rp["probe"]]()
+        print(json.dumps({"probe": rp["probe"], "oracle": hits}, indent=1))
+        return 1 if hits else 0
     if rp.get("part") == "C":
         ev = run_lifetimes(rp["case"])
         hits = oracle_lifetimes(rp["case"], ev)
